@@ -12,7 +12,8 @@ ENGINES = {
 
 PROP = {
     "engines": ["value"],
-    "lean_modules": ["AxVerif.Model.Value", "AxVerif.Lemmas.Value", "AxVerif.Model.Bytes", "AxVerif.Lemmas.Bytes"],
+    "lean_modules": ["AxVerif.Model.Value", "AxVerif.Lemmas.Value", "AxVerif.Lemmas.ValueOrder", "AxVerif.Lemmas.ValueFloat",
+                     "AxVerif.Model.Bytes", "AxVerif.Lemmas.Bytes"],
     "rule": "cases = VarInt encode/decode/zig-zag on every 7-bit-group boundary and random i64, decoder inputs (unterminated, "
             "over-long, bits beyond 64, non-canonical, truncated, random); Blob encode/decode (lengths around 8/16/64/8192, "
             "negative and huge announced lengths, truncation) and comparator pairs (grid of fills 00/7f/80/ff x lengths "
